@@ -24,6 +24,7 @@ import (
 	"regexp"
 	"slices"
 	"sort"
+	"strconv"
 	"strings"
 
 	"deps.dev/util/resolve"
@@ -1460,6 +1461,9 @@ func emitPom(r *rand.Rand, c pomCase, thorough bool, emit func(pomCase, bool, bo
 		if r.Intn(30) == 0 {
 			us = append(us, pupd{name: "absent.g:absent-a", from: "1", to: "2"})
 		}
+		if r.Intn(25) == 0 && len(us) > 0 { // an old version that is not the one in the file: the pom writer never looks at it
+			us[0].from = "0.0.0-wrong"
+		}
 		if r.Intn(40) == 0 { // a Name that is not groupId:artifactId: Write must fail
 			us = append(us, pupd{name: []string{"nocolon", "a:b:c", ""}[r.Intn(3)], from: "1", to: "2"})
 		}
@@ -1469,6 +1473,219 @@ func emitPom(r *rand.Rand, c pomCase, thorough bool, emit func(pomCase, bool, bo
 			emit(c1, false, false)
 		}
 	}
+}
+
+// ---------------------------------------------------------------------------------------------- pch (local parent chains)
+
+// pchCase: a multi-module layout top/[mid/]child/pom.xml.  Level 0 is the child, the last level the top parent.  Intermediate
+// and child poms may leave out <groupId> / <version> (inherited from their own parent), relativePath may be left to its
+// default.  Every level declares literal-version entries in <dependencies> and/or <dependencyManagement>, all keys distinct.
+type pchDecl struct {
+	Level int
+	Mgmt  bool
+	A     string // artifactId; groupId is dep.g
+	Ver   string
+}
+type pchCase struct {
+	Depth      int   // number of parents: 1..3
+	OmitGroup  []bool // per level below the top
+	OmitVer    []bool
+	ExplicitRP []bool // <relativePath>../pom.xml</relativePath> written out
+	Decls      []pchDecl
+	Ups        []int    // indices into Decls
+	To         []string // new version per update
+	SamePath   bool
+}
+
+func (c pchCase) concrete() string {
+	b, err := json.Marshal(c)
+	must(err)
+	return "pch " + hex.EncodeToString(b)
+}
+
+func parsePch(t []string) pchCase {
+	b, err := hex.DecodeString(t[1])
+	must(err)
+	var c pchCase
+	must(json.Unmarshal(b, &c))
+	return c
+}
+
+// pchDir returns the directory of a level relative to the layout root: the top parent sits in ".", each level below in a sub-directory.
+func pchDir(c pchCase, level int) string {
+	parts := []string{}
+	for l := c.Depth - 1; l >= level; l-- {
+		parts = append(parts, fmt.Sprintf("m%d", l))
+	}
+	return filepath.Join(parts...)
+}
+
+func pchPom(c pchCase, level int) string {
+	var sb strings.Builder
+	w := func(s string) { sb.WriteString(s + "\n") }
+	w("<project>")
+	w("  <modelVersion>4.0.0</modelVersion>")
+	if level < c.Depth { // has a parent
+		w("  <parent>")
+		w("    <groupId>chain.g</groupId>")
+		w(fmt.Sprintf("    <artifactId>level%d</artifactId>", level+1))
+		w("    <version>7.0</version>")
+		if c.ExplicitRP[level] {
+			w("    <relativePath>../pom.xml</relativePath>")
+		}
+		w("  </parent>")
+	}
+	if level == c.Depth || !c.OmitGroup[level] {
+		w("  <groupId>chain.g</groupId>")
+	}
+	w(fmt.Sprintf("  <artifactId>level%d</artifactId>", level))
+	if level == c.Depth || !c.OmitVer[level] {
+		w("  <version>7.0</version>")
+	}
+	if level > 0 {
+		w("  <packaging>pom</packaging>")
+	}
+	w("  <!-- level " + strconv.Itoa(level) + " -->")
+	for _, mgmt := range []bool{false, true} {
+		var ds []pchDecl
+		for _, d := range c.Decls {
+			if d.Level == level && d.Mgmt == mgmt {
+				ds = append(ds, d)
+			}
+		}
+		if len(ds) == 0 {
+			continue
+		}
+		ind := "  "
+		if mgmt {
+			w("  <dependencyManagement>")
+			ind = "    "
+		}
+		w(ind + "<dependencies>")
+		for _, d := range ds {
+			w(ind + "  <dependency>")
+			w(ind + "    <groupId>dep.g</groupId>")
+			w(ind + "    <artifactId>" + d.A + "</artifactId>")
+			w(ind + "    <version>" + d.Ver + "</version>")
+			w(ind + "  </dependency>")
+		}
+		w(ind + "</dependencies>")
+		if mgmt {
+			w("  </dependencyManagement>")
+		}
+	}
+	w("</project>")
+	return sb.String()
+}
+
+func pchReqs(m guidedremediation.VerifManifest) (string, []resolve.RequirementVersion) {
+	var rs []string
+	list := m.Requirements()
+	for _, r := range list {
+		g, a := splitGA(r.Name)
+		t, _ := r.Type.GetAttr(dep.MavenArtifactType)
+		cl, _ := r.Type.GetAttr(dep.MavenClassifier)
+		o, _ := r.Type.GetAttr(dep.MavenDependencyOrigin)
+		rs = append(rs, strings.Join([]string{hs(o), hs(g), hs(a), hs(normTyp(t)), hs(cl), hs(r.Version)}, ":"))
+	}
+	sort.Strings(rs)
+	return hx.Join(rs, ","), list
+}
+
+func runPch(c pchCase) (line string, reply string) {
+	before, ups := "-", "-"
+	reply = hx.Guard(func() string {
+		root, err := os.MkdirTemp(scratch, "c")
+		must(err)
+		defer os.RemoveAll(root)
+		src := map[string]string{}
+		for l := 0; l <= c.Depth; l++ {
+			rel := filepath.Join(pchDir(c, l), "pom.xml")
+			src[rel] = pchPom(c, l)
+			must(os.MkdirAll(filepath.Join(root, "in", filepath.Dir(rel)), 0o755))
+			must(os.WriteFile(filepath.Join(root, "in", rel), []byte(src[rel]), 0o644))
+		}
+		childRel := filepath.ToSlash(filepath.Join("in", pchDir(c, 0), "pom.xml"))
+		rw, err := guidedremediation.VerifMavenReadWriter("http://127.0.0.1:1/")
+		must(err)
+		m, err := rw.Read(childRel, scalibrfs.DirFS(root))
+		if err != nil {
+			return "r=readerr"
+		}
+		var reqList []resolve.RequirementVersion
+		before, reqList = pchReqs(m)
+		var pus []result.PackageUpdate
+		var us []string
+		touched := map[int]bool{}
+		for i, di := range c.Ups {
+			d := c.Decls[di]
+			for _, r := range reqList {
+				o, _ := r.Type.GetAttr(dep.MavenDependencyOrigin)
+				if r.Name == "dep.g:"+d.A && (o == "management") == d.Mgmt {
+					pus = append(pus, result.PackageUpdate{Name: r.Name, VersionFrom: r.Version, VersionTo: c.To[i], Type: r.Type.Clone()})
+					us = append(us, strings.Join([]string{hs(r.Name), hs(""), hs(""), hs(o), hs(r.Version), hs(c.To[i])}, ":"))
+					touched[d.Level] = true
+					break
+				}
+			}
+		}
+		ups = hx.Join(us, ",")
+		outBase := "out"
+		if c.SamePath {
+			outBase = "in"
+		}
+		outChild := filepath.Join(root, outBase, pchDir(c, 0), "pom.xml")
+		if err := rw.Write(m, scalibrfs.DirFS(root), []result.Patch{{PackageUpdates: pus}}, outChild); err != nil {
+			return "r=err"
+		}
+		// every file of the chain must be next to the output, and untouched levels byte-identical
+		same := true
+		for l := 0; l <= c.Depth; l++ {
+			rel := filepath.Join(pchDir(c, l), "pom.xml")
+			b, err := os.ReadFile(filepath.Join(root, outBase, rel))
+			if err != nil {
+				return fmt.Sprintf("r=ok-missing-level%d", l)
+			}
+			if !touched[l] && string(b) != src[rel] {
+				same = false
+			}
+		}
+		m2, err := rw.Read(filepath.ToSlash(filepath.Join(outBase, pchDir(c, 0), "pom.xml")), scalibrfs.DirFS(root))
+		if err != nil {
+			return "r=ok-rereaderr"
+		}
+		after, _ := pchReqs(m2)
+		return fmt.Sprintf("r=ok chain=%s same=%s", after, hx.B(same))
+	})
+	return c.concrete() + " " + ups + " " + before, reply
+}
+
+func genPch(r *rand.Rand) pchCase {
+	c := pchCase{Depth: 1 + r.Intn(3), SamePath: r.Intn(2) == 0}
+	for l := 0; l < c.Depth; l++ {
+		c.OmitGroup = append(c.OmitGroup, r.Intn(2) == 0)
+		c.OmitVer = append(c.OmitVer, r.Intn(2) == 0)
+		c.ExplicitRP = append(c.ExplicitRP, r.Intn(2) == 0)
+	}
+	names := []string{"a", "b", "c", "d", "e", "f", "g"}
+	r.Shuffle(len(names), func(i, j int) { names[i], names[j] = names[j], names[i] })
+	k := 0
+	for l := 0; l <= c.Depth; l++ {
+		for n := r.Intn(3); n > 0 && k < len(names); n-- {
+			c.Decls = append(c.Decls, pchDecl{Level: l, Mgmt: r.Intn(3) == 0, A: names[k], Ver: pomVers[r.Intn(6)]})
+			k++
+		}
+	}
+	if len(c.Decls) == 0 {
+		c.Decls = []pchDecl{{Level: c.Depth, A: "a", Ver: "1.0"}}
+	}
+	for i := range c.Decls {
+		if r.Intn(2) == 0 {
+			c.Ups = append(c.Ups, i)
+			c.To = append(c.To, pomTo[r.Intn(len(pomTo))])
+		}
+	}
+	return c
 }
 
 // ---------------------------------------------------------------------------------------------- main
@@ -1524,6 +1741,9 @@ func main() {
 				if line, reply, ok := runWs(c); ok {
 					out.Emit(line, reply)
 				}
+			case "pch":
+				line, reply := runPch(parsePch(t))
+				out.Emit(line, reply)
 			case "pom", "pomc", "pomd":
 				before, reply := runPom(parsePom(t), t[0] == "pomc", t[0] == "pomd")
 				out.Emit(strings.Join(t[:5], " ")+" "+before, reply)
@@ -1553,5 +1773,9 @@ func main() {
 	}
 	for i := 0; i < o.N/4; i++ {
 		emitPom(r, genPom(r), thorough, emitPomCase)
+	}
+	for i := 0; i < o.N/8; i++ {
+		line, reply := runPch(genPch(r))
+		out.Emit(line, reply)
 	}
 }
